@@ -395,7 +395,7 @@ def search_rename(ctx: Ctx) -> SearchResult:
 	corpus_findings = len(res.findings)   # the cap on shrinking below counts generated findings only
 
 	# 2. generated programs × adversarial renamings
-	n_prog = ctx.scale(28, 125)
+	n_prog = ctx.scale(28, 110)
 	per_prog = ctx.scale(3, 5)
 	deadline = Deadline(ctx, 50, 480)
 	for n_done, (origin, src, tag) in enumerate(program_stream(ctx, rng, n_prog)):
@@ -458,7 +458,7 @@ def search_rename(ctx: Ctx) -> SearchResult:
 		ctx.notes.append(f'member-spelling programs not generated: name table unavailable ({type(e).__name__})')
 	all_words = sorted({w for ws in word_sets for w in ws})
 	avoid = c08gen.emitter_vocabulary() | reserved.words
-	rounds = ctx.scale(1, 4)
+	rounds = ctx.scale(1, 3)
 	spell_deadline = Deadline(ctx, 25, 240)
 	spell_findings = 0
 	for n_done, (rnd, focus) in enumerate((a, ws) for a in range(rounds) for ws in word_sets):
@@ -1310,7 +1310,7 @@ def run(ctx: Ctx) -> int:
 		},
 		assumptions=[
 			'names are non-empty strings without "." and "#" (every Python identifier; tranp scope words like if@115); module paths are non-empty without "#"',
-			'a renaming is injective, maps user identifiers to names that are not keyword / builtin / tranp-reserved (c08gen.Reserved: self, cls, super, _, dunder names, every name of the loaded library modules, same leading-underscore class) and not present in the program',
+			'a renaming is injective, maps user identifiers to names that are not keyword / builtin / tranp-reserved (c08gen.Reserved: self, cls, super, _, dunder names, every name of the loaded library modules, same leading-underscore class) and not present in the program; one relaxation, for NEW names only: a method / field may be renamed INTO a member spelling of Generated/C08Names.lean (items, pop, on, value, …) although the library defines members of that name — tranp decides by the receiver type there (name_sites_guarded); a name that coincides with a library name is never renamed AWAY (token-wise rewriting could not tell the occurrences of the user from those of the library)',
 			'entry paths (Node.full_path) contain grammar tags and indices only',
 		],
 		trusted=['the harness-side extraction of (ancestor chain, symbol-table attributes) from real nodes and reflections', 'CPython ast/tokenize for the source-side renaming'])
